@@ -62,6 +62,10 @@ def drive(sc):
             data["transformed_results"] = tuple(make_item(it, True, True) for it in items)
         plan.emit_event(Event(event_type=EventType.FINISHED_EVALUATION, config=config(),
                               source={"tracked": tracked, "tracked2": tracked2}.get(ev["src"], other), data=data))
+        if len(trace) % 2 == 0:
+            # the tracked step finishes (and, with the next event, runs again): what a tracker holds outlives the step
+            for et in (EventType.FINISHED_OPTIMIZER_STEP, EventType.START_OPTIMIZER_STEP):
+                plan.emit_event(Event(event_type=et, config=config(), source={"tracked": tracked, "tracked2": tracked2}.get(ev["src"], other), data={}))
         kept = plan.get(tracker, "results")
         eff = [{k: it[k] for k in ("id", "kind", "hasfun", "obj", "nan")} | {"feas": bool(it["feas"] or par["tolnone"])}
                for it in ev["items"]]
@@ -158,6 +162,23 @@ def drive(sc):  # noqa: F811
 def extra_scenarios(tier, seed):
     rng = np.random.default_rng(seed)
     out = []
+    # batches that contain a FAILED evaluation (no function values) whose feasibility differs from its neighbour's
+    n = 0
+    for what in ("best", "last"):
+        for flip in (False, True):
+            for afeas in (False, True):
+                for order in (0, 1):
+                    for first in (None, 1, 2):
+                        a = {"kind": "F", "hasfun": True, "obj": 1, "nan": False, "feas": afeas}
+                        f = {"kind": "F", "hasfun": False, "obj": 0, "nan": True, "feas": not afeas}
+                        events = []
+                        if first is not None:
+                            events.append({"src": "tracked", "items": [{"id": 11, "kind": "F", "hasfun": True, "obj": first + 1, "nan": False, "feas": True}]})
+                        pair = [a, f] if order == 0 else [f, a]
+                        k = 10 * (len(events) + 1)
+                        events.append({"src": "tracked", "items": [dict(it, id=k + j + 1) for j, it in enumerate(pair)]})
+                        out.append({"par": {"what": what, "flip": flip, "tolnone": False, "tol": "pos", "srcs": "set"}, "events": events})
+                        n += 1
     for method in ("slsqp", "cobyla") + (("l-bfgs-b", "nelder-mead", "differential_evolution") if tier == "thorough" else ()):
         for flip in (False, True):
             for con in (False, True):
